@@ -44,7 +44,8 @@ func TestMain(m *testing.M) {
 			"(read-write) OBJ text drawn from a grammar: v/vt/vn pools (optionally extended mid-file), optional mtllib/o/s lines, comments, blank lines, whitespace variants, CRLF, 1..14 statements out of {g <distinct name>, usemtl m0..m2, triangular f} in any order, one corner form (v, v/vt, v//vn, v/vt/vn) per group, literals as integers, k/8, 6-decimal and 4-decimal numbers. " +
 			"Oracle: the harness parser gives the face list; obj.ReadMesh must load the same number of faces, the same face-bearing groups (name, face count) and per face the same positions (and normals/uvs where the form has them) to float32 precision; obj.WriteMeshes of the loaded meshes parsed by the harness parser must contain exactly the loaded faces as a multiset of position triples (face-lost / face-invented); ranges of a loaded group must cover its triangles and every face preceded by a usemtl inside its own group must carry that name. " +
 			"Non-trivial = (write-read) >= 2 meshes with different attribute sets or a mesh with >= 2 material ranges; (read-write) at least one face and a g line after a usemtl line, or >= 2 usemtl lines inside one face-bearing group, or >= 2 face-bearing groups with different corner forms. Distinct by case JSON. " +
-			"Sub-checks huge-mesh (2^24+8 vertices; non-trivial) and concurrent-writers / concurrent-readers: every concurrent-* case (2-5 bundled cases run at the same time after each passed alone) is non-trivial.",
+			"Sub-checks huge-mesh (2^24+8 vertices; non-trivial) and concurrent-writers / concurrent-readers: every concurrent-* case (2-5 bundled cases run at the same time after each passed alone) is non-trivial. " +
+			"One name in eight is an OBJ keyword or an exporter default (default, off, g, usemtl, ...). Sub-check count-sweep: a triangle strip with every triangle count 1..2 500 (thorough 1..25 000), normals/uvs for even counts, two material ranges for multiples of three.",
 		Assumptions: []string{
 			"mesh names are non-empty, whitespace-free and distinct (the writer emits `g <name>`, the reader rejects an empty g line, and OBJ merges groups of equal name)",
 			"every mesh has >= 1 triangle (the reader drops groups without faces); material ranges partition the triangles with counts >= 1",
